@@ -597,7 +597,11 @@ def _rowwise(prog: Program, res: Result, lb: int):
             if not okg:
                 txt = norm_stmt(e.node)
                 if key in via and was_none:
-                    okg, why = True, "accepted: " + ROWWISE_ACCEPT["first-sweep-element"]
+                    okf, whyf = sc.sweep_start_is_feasible_end(prog, fi)
+                    if okf:
+                        okg, why = True, "accepted: " + ROWWISE_ACCEPT["first-sweep-element"] + " - checked: " + whyf
+                    else:
+                        why = "the sweep's first candidate is accepted without a test, and " + whyf
                 elif key in final and isinstance(e.node.value, ast.Name) and e.node.value.id in via:
                     okg, why = True, f"{e.node.value.id} (checked where it is assigned)"
                 elif key in final and _sign_from_trail(pre, sc.exc(Seq([Seq([Rat.const(0), Rat.const(0)], "list")], "list"), sc.MAXH)) is not None \
@@ -728,6 +732,10 @@ def _clamp_table(prog: Program, res: Result):
 
 
 VARIANTS = [
+    Variant("row-wise: the exhaustive re-check starts at the unevaluated bisection midpoint (seeded C01_h)", "break",
+            [(SR, "            spacing_l = spacing_step + spacing_high\n            target_spacings = []\n            current_spacing = spacing_high\n", "            spacing_l = spacing_step + spacing_m\n            target_spacings = []\n            current_spacing = spacing_m\n")], "R01.1"),
+    Variant("row-wise: the feasible end is also moved when the midpoint fails", "break",
+            [(SR, "                else:\n                    spacing_low = spacing_m\n                    low_e = t_e1\n", "                else:\n                    spacing_low = spacing_m\n                    spacing_high = spacing_m\n                    low_e = t_e1\n")], "R01.1"),
     Variant("size() returns early at min_height when the excess there is within 0.01 K (seeded C01_f)", "break",
             [(GHX, "        # Make the initial guess variable the average of the heights given\n        self.bhe.b.H = (self.sim_params.max_height", "        if local_objective(self.sim_params.min_height) <= 1.0e-2:\n            return\n\n        # Make the initial guess variable the average of the heights given\n        self.bhe.b.H = (self.sim_params.max_height")], "R01.5"),
     Variant("size() returns early at min_height when the limits are already met there", "benign",
